@@ -140,6 +140,11 @@ type Exec struct {
 	extSeen       map[string]map[int]bool
 	extList       map[string][]*Term
 	cbcUses       []cbcUse
+	cutsTried     int
+	bcatNames     map[int]*Term
+	lens          map[int]*Term
+	extOrigin     map[int]bool
+	cutsProved    int
 }
 
 func newExec(P *Program, cfg *RunCfg) *Exec {
@@ -176,7 +181,14 @@ func (ex *Exec) assumeGlobal(t *Term) {
 	}
 	ex.hypSeen[t.id] = true
 	ex.hyps = append(ex.hyps, t)
+	if traceHyp != "" {
+		if str := t.StringLimit(400000); strings.Contains(str, traceHyp) {
+			if len(str) > 600 { str = str[len(str)-600:] }; fmt.Fprintf(os.Stderr, "HYP[%d] ...%s\n", len(ex.hyps)-1, str)
+		}
+	}
 }
+
+var traceHyp = os.Getenv("IKEVERIF_TRACEHYP")
 
 func (ex *Exec) assume(reach, t *Term) { ex.assumeGlobal(Implies(reach, t)) }
 
@@ -221,11 +233,14 @@ func (ex *Exec) oblige(class, what string, reach, cond *Term) *Obligation {
 	ex.obls = append(ex.obls, o)
 	o.HypIdx = -1
 	if class != "step" {
-		o.HypIdx = len(ex.hyps)
+		n0 := len(ex.hyps)
 		// assert-then-assume: one defect gives one failing obligation.  Step predicates are
 		// pure observations (nothing later depends on them) and belong to other properties,
 		// so they must not hide a failing variant or bounds obligation of the same iteration.
 		ex.assumeGlobal(goal)
+		if len(ex.hyps) == n0+1 {
+			o.HypIdx = n0 // (not set when the fact was already known: nothing to retract)
+		}
 	}
 	return o
 }
@@ -1972,6 +1987,10 @@ func (ex *Exec) callStatic(f *Frame, call *ssa.Call, fn *ssa.Function, args []Va
 			ex.modes = append(ex.modes, &contractMode{})
 			defer func() { ex.modes = ex.modes[:len(ex.modes)-1] }()
 			return ex.callFn(fn, args, reach)
+		}
+		if ns, ok := nativeSummaries[fnName(fn)]; ok && ex.cfg.useSummary[fnName(fn)] && ex.hmacNewHook != nil {
+			ex.summariesUsed[fnName(fn)] = true
+			return ns(ex, f, call, args, reach)
 		}
 		if sm := ex.P.summaries[fnName(fn)]; sm != nil && ex.cfg.useSummary[fnName(fn)] {
 			return ex.applySummary(f, call, fn, sm, args, reach)
